@@ -61,14 +61,15 @@ def run(chk, ctx):
     bc = T.add(f.hfield(2), hf.size + 1)
     n_in = 0
     bad = []
-    for o in f.outs:
-        chain = o.exc.chain if o.kind == 'raise' else None
+    work = [(o, o.exc.chain) for o in f.outs if o.kind == 'raise'] + \
+        [(r.o, None) for r in f.rets]
+    kind_of = {id(r.o): f.kind_of(r) for r in f.rets}
+    for o, chain in work:
         inside = None
         if chain:
             inside = next((c for c in chain if c in CONTENT), None)
         elif o.kind == 'return':
-            r = [x for x in f.rets if x.o is o][0]
-            k = f.kind_of(r)
+            k = kind_of.get(id(o))
             inside = {'method': CONTENT[0], 'header': CONTENT[1],
                       'body': CONTENT[2]}.get(k)
         if inside is None:
